@@ -149,7 +149,9 @@ FieldsDef(kind) ==
           <<Map("schemas", "Schema"), Map("responses", "Response"), Map("parameters", "Parameter"),
             Map("examples", "Example"), Map("requestBodies", "RequestBody"), Map("headers", "Header"),
             Map("securitySchemes", "SecurityScheme"), Map("links", "Link"), Map("callbacks", "Callback")>>
-     [] kind = "Paths" -> <<Obj("/p", "PathItem"), Obj("/q/{id}", "PathItem")>>
+     (* the entries of a map-like kind are its own keys: the root path, a trailing slash next to its namesake, upper case *)
+     [] kind = "Paths" -> <<Obj("/p", "PathItem"), Obj("/q/{id}", "PathItem"), Obj("/", "PathItem"), Obj("/p/", "PathItem"),
+                            Obj("/P/{Id}.json", "PathItem")>>
      [] kind = "PathItem" ->
           <<PRef("$ref"), Str("summary"), Str("description"), Obj("get", "Operation"), Obj("put", "Operation"),
             Obj("post", "Operation"), Obj("delete", "Operation"), Obj("options", "Operation"),
@@ -168,7 +170,8 @@ FieldsDef(kind) ==
                                 Map("encoding", "Encoding")>>
      [] kind = "Encoding" -> <<Str("contentType"), Map("headers", "Header"), Str("style"),
                                BoolP("explode", "keep"), Bool("allowReserved")>>
-     [] kind = "Responses" -> <<Obj("default", "Response"), Obj("200", "Response"), Obj("4XX", "Response")>>
+     [] kind = "Responses" -> <<Obj("default", "Response"), Obj("200", "Response"), Obj("4XX", "Response"), Obj("404", "Response"),
+                                Obj("5xx", "Response")>>
      [] kind = "Response" -> <<StrPR("description"), Map("headers", "Header"), Map("content", "MediaType"),
                                Map("links", "Link")>>
      [] kind = "Callback" -> <<Obj("{$request.body#/url}", "PathItem"), Obj("http://h/{$request.query.id}", "PathItem")>>
